@@ -56,6 +56,13 @@ def cases(rng, quick, gr):
     # (4) division and powers by integer-valued sub-expressions (computed ints, array elements, variables)
     for d in ["n", "A[0]", "(1+1)", "n*2", "A[5]-A[4]+1", "2**2", "-n"]:
         yield {"tag": "int-division", "text": HDR + DECLS + "Op(1/%s, x/%s, 7/%s/2, 2**-1, n**-2, (%s)**-1) | 0\n" % (d, d, d, d)}
+    # (4b) integer bases to negative integer powers whose positive power leaves int64 (the value itself is a modest real)
+    for base in ["2", "3", "7", "10", "n", "A[4]", "(1+1)", "(2*5)", "-3", "n*2"]:
+        for ex in ["-1", "-10", "-19", "-20", "-23", "-40", "-63", "-64", "-(n+17)", "-A[5]*7", "-n*9"]:
+            yield {"tag": "int-negative-power", "text": HDR + DECLS + "Op(%s**%s, 5*(%s)**%s+1) | 0\n" % (base, ex, base, ex)}
+    # (4c) extreme but finite magnitudes
+    for lit in ["1e-20", "3.5e+15", "2E-30", "1e25", "9.99e-7", "123456789012.5", "1e-300*1e5", "7e150*7e-150"]:
+        yield {"tag": "extreme-magnitude", "text": HDR + DECLS + "Op(%s, %s * x, 1 / %s, (%s) ** 2, %s + n) | 0\n" % (lit, lit, lit, lit, lit)}
     # (5) row-major indexing with computed indices
     for k in range(6):
         yield {"tag": "index", "text": HDR + DECLS + "Op(A[%d], A[%d+0], A[n-3+%d], F[%d]) | A[%d]\n" % (k, k, k, k % 4, k)}
